@@ -12,10 +12,15 @@ pub mod c11;
 pub mod c12;
 pub mod sweep;
 pub mod c13;
+#[cfg(feature = "utf16")]
+pub mod c14;
+pub mod c15;
 pub mod c16;
 pub mod c17;
 pub mod c18;
 pub mod c19;
+#[cfg(feature = "pattern")]
+pub mod c20;
 pub mod common;
 
 use crate::drv::{Ctx, Variant};
@@ -35,6 +40,11 @@ pub fn variants(prop: &str) -> Vec<&'static Variant> {
         "C11" => c11::variants(),
         "C12" => c12::variants(),
         "C13" => c13::variants(),
+        #[cfg(feature = "utf16")]
+        "C14" => c14::variants(),
+        #[cfg(feature = "pattern")]
+        "C20" => c20::variants(),
+        "C15" => c15::variants(),
         "C16" => c16::variants(),
         "C17" => c17::variants(),
         "C18" => c18::variants(),
@@ -58,6 +68,11 @@ pub fn run(prop: &str, ctx: &Ctx) -> Option<i32> {
         "C11" => c11::run(ctx),
         "C12" => c12::run(ctx),
         "C13" => c13::run(ctx),
+        #[cfg(feature = "utf16")]
+        "C14" => c14::run(ctx),
+        #[cfg(feature = "pattern")]
+        "C20" => c20::run(ctx),
+        "C15" => c15::run(ctx),
         "C16" => c16::run(ctx),
         "C17" => c17::run(ctx),
         "C18" => c18::run(ctx),
